@@ -212,7 +212,7 @@ def stack(st, idx):
     out = []
     g = st.get("gate", "daily")
     risky = st.get("weigh") in RISK_WEIGHS or st.get("mod") == "targetvol"
-    if risky:
+    if risky and st.get("warm") != "after_gate":
         out += [A.RunAfterDays(6)]
     if st.get("flow") is not None and st.get("flowgate"):
         # flows on their own schedule: dates with a flow but no rebalance exist
@@ -224,6 +224,9 @@ def stack(st, idx):
         out += gate(g, idx)
         if st.get("flow") is not None:
             out += [A.CapitalFlow(float(st["flow"])), Tap("flow")]
+    if risky and st.get("warm") == "after_gate":
+        # warm-up counted in gate hits (keeps the stack's first algo a calendar scheduler)
+        out += [A.RunAfterDays(6 if g == "daily" else 2)]
     if risky:
         out += [A.SelectThese(["a", "b", "d"]), A.SelectHasData(lookback=pd.DateOffset(days=9), min_count=5)]
     else:
